@@ -114,6 +114,7 @@ Proof.
     + intros q cq Hfq. rewrite (cb_reqs h h' F CB) in Hfq.
       destruct (Hqueue q cq Hfq) as [x [p [cx [H1 [H2 [H3 [H4 H5]]]]]]].
       exists x, p, (F x cx). repeat split; auto. eapply cells_by_some; eauto.
+  - intros q cq Hfq. rewrite (cb_reqs h h' F CB) in Hfq. exact (hi_qkind D h HI q cq Hfq).
   - rewrite (cb_drag h h' F CB). exact (hi_drag D h HI).
   - intros a Ha. rewrite (cb_nextw h h' F CB). apply (hi_nextw D h HI).
     intro Hn. apply Ha. apply (cells_by_none h h' F a CB). exact Hn.
